@@ -5,12 +5,19 @@ cd "$(dirname "$0")/coq"
 export OCAMLRUNPARAM=${OCAMLRUNPARAM:-}
 [ -f Makefile ] || coq_makefile -f _CoqProject -o Makefile >/dev/null
 if [ _CoqProject -nt Makefile ]; then coq_makefile -f _CoqProject -o Makefile >/dev/null; fi
-timeout ${VERIF_MAKE_TIMEOUT:-3000} make -j${VERIF_JOBS:-16} TIMED= 2>&1 | grep -v '^COQDEP\|conda' || true
-test "${PIPESTATUS[0]}" = 0
+# -k: a file that no longer compiles (a regenerated table that breaks one proof) must not keep the rest from being rebuilt;
+# ./check decides per property whether what it needs was built (it re-checks props/Cxx.v against the fresh .vo files)
+set +e
+timeout ${VERIF_MAKE_TIMEOUT:-3000} make -k -j${VERIF_JOBS:-16} TIMED= 2>&1 | grep -v '^COQDEP\|conda'
+makerc=${PIPESTATUS[0]}
+set -e
+[ -f model/Run.vo ] || { echo "model/Run.vo missing"; exit 1; }
 cd extract
 if [ ! -x driver ] || [ ../model/Run.vo -nt driver ] || [ ../../tools/schema.py -nt driver ] || [ base.ml -nt driver ] || [ driver.ml -nt driver ] || [ Extract.v -nt driver ]; then
   timeout 600 coqc -R ../model V Extract.v >/dev/null
   python3 ../../tools/gen_conv.py conv.ml
   timeout 600 ocamlfind ocamlopt -package unix -linkpkg -O2 -w -a -o driver model.mli model.ml base.ml conv.ml driver.ml
 fi
+echo driver-ok
+test "$makerc" = 0
 echo build-ok
